@@ -282,7 +282,10 @@ may replace it at any point (`HOp.items`) without telling `Dynamic`.  `DynList.g
 regenerated facts that the five repairs are present in the source: the cursor-gutter guard (F119),
 the stop condition of `insertChildren` (F119f), the walk back to an existing top widget at the
 start of `Draw` (F119b), the gap counted by the upward-scroll code and the re-anchoring loop
-(F119c), and the wants-cursor block revealing a widget above the viewport (F119d). -/
+(F119c), and the wants-cursor block revealing a widget above the viewport (F119d).  The sixth
+repair (F119g: `ensureScroll` drops a pending scroll when it moves the top to the cursor) is part
+of `DynList.ensureScroll` itself, which `Props/C19Tie.lean` proves equal to the regenerated
+syntax of the method, interpreted. -/
 
 section Dyn
 open VaxisModel.Model.DynList VaxisModel.Lemmas.DynList
@@ -379,27 +382,28 @@ theorem dyn_next_prev_in_range (hs : List Nat) (s s1 : St) (hcu : s.cursor < 2 ^
   rw [e2]; exact hc
 
 /-- **Selected item visible — from ANY scroll state.**  For every builder, every gap, every viewport
-    of ≥ 1 row: from any state with a sane top index and no pending scroll (whatever top, offset and
-    the wants-cursor flag are — e.g. stale after the items were replaced), `SetCursor(c)` to an
+    of ≥ 1 row: from any state with a sane top index (whatever top, offset, the pending scroll and
+    the wants-cursor flag are — e.g. stale after the items were replaced, or a wheel scroll
+    requested before the cursor moves), `SetCursor(c)` to an
     existing item of height ≥ 1 followed by `Draw` does not panic and returns a child for item `c`
     whose rows intersect the viewport and which lies fully inside the viewport when it fits. -/
 theorem dyn_cursor_visible_any_state (cfg : Cfg) (hs : List Nat) (hlen : hs.length < 2 ^ 63) (s : St) (c W H hc : Nat)
     (hW : W ≠ 65535) (hH : H ≠ 65535) (hH1 : 1 ≤ H)
-    (ht : s.top < 2 ^ 63) (hp : s.pending = 0) (hcur : hs[c]? = some hc) (hc1 : 1 ≤ hc) :
+    (ht : s.top < 2 ^ 63) (hcur : hs[c]? = some hc) (hc1 : 1 ≤ hc) :
     ∃ s' cs, draw genFacts cfg hs (setCursor s c) W H = .ok (s', cs) ∧
       ∃ ch ∈ cs, ch.idx = c ∧ ch.height = hc ∧ Visible H ch := by
   rw [dyn_repairs_present]
-  exact ensureScroll_draw_visible cfg hs hlen s c W H hc hW hH hH1 ht hp hcur hc1
+  exact ensureScroll_draw_visible cfg hs hlen s c W H hc hW hH hH1 ht hcur hc1
 
 /-- **Selected item visible — all histories, all gaps ≥ 0, items replaced at will.**  After ANY
     history from the initial state (SetCursor/NextItem/PrevItem/wheel/SetPendingScroll/Draw with any
-    viewports, interleaved with replacements of the Builder's items) that leaves no pending scroll:
-    `SetCursor(c)` to an item the Builder has now (height ≥ 1) followed by `Draw` into a viewport of
+    viewports, interleaved with replacements of the Builder's items) — also one that leaves a scroll
+    pending: `SetCursor(c)` to an item the Builder has now (height ≥ 1) followed by `Draw` into a viewport of
     ≥ 1 row does not panic and shows item `c`: its rows intersect the viewport, and it is fully
     inside when it fits. -/
 theorem dyn_cursor_visible (cfg : Cfg) (hgap : 0 ≤ cfg.gap) (hs0 : List Nat) (hlen0 : hs0.length < 2 ^ 63)
     (ops : List HOp) (ho : ∀ op ∈ ops, HOpOk op) (hs : List Nat) (s : St)
-    (hrun : runH genFacts cfg hs0 init ops = .ok (hs, s)) (hp : s.pending = 0)
+    (hrun : runH genFacts cfg hs0 init ops = .ok (hs, s))
     (c W H hc : Nat) (hW : W ≠ 65535) (hH : H ≠ 65535) (hH1 : 1 ≤ H)
     (hcur : hs[c]? = some hc) (hc1 : 1 ≤ hc) :
     ∃ s' cs, draw genFacts cfg hs (setCursor s c) W H = .ok (s', cs) ∧
@@ -408,13 +412,13 @@ theorem dyn_cursor_visible (cfg : Cfg) (hgap : 0 ≤ cfg.gap) (hs0 : List Nat) (
   rw [dyn_repairs_present] at hrun'
   obtain ⟨hs', s1, he, hi, hl⟩ := runH_inv cfg hgap ops hs0 init hlen0 init_inv ho
   rw [hrun'] at he; cases he
-  exact dyn_cursor_visible_any_state cfg hs hl s c W H hc hW hH hH1 hi.top_ok hp hcur hc1
+  exact dyn_cursor_visible_any_state cfg hs hl s c W H hc hW hH hH1 hi.top_ok hcur hc1
 
 /-- The same for `NextItem` / `PrevItem` from any state (when they move the cursor, i.e. return a
     command; the newly selected item has height ≥ 1). -/
 theorem dyn_next_prev_visible_any_state (cfg : Cfg) (hs : List Nat) (hlen : hs.length < 2 ^ 63) (s : St) (W H : Nat)
     (hW : W ≠ 65535) (hH : H ≠ 65535) (hH1 : 1 ≤ H)
-    (ht : s.top < 2 ^ 63) (hcu : s.cursor < 2 ^ 63) (hp : s.pending = 0)
+    (ht : s.top < 2 ^ 63) (hcu : s.cursor < 2 ^ 63)
     (s1 : St) (hmove : (nextItem hs s = (s1, true)) ∨ (prevItem hs s = (s1, true)))
     (hpos : ∀ h, hs[s1.cursor]? = some h → 1 ≤ h) :
     ∃ s' cs, draw genFacts cfg hs s1 W H = .ok (s', cs) ∧
@@ -423,13 +427,13 @@ theorem dyn_next_prev_visible_any_state (cfg : Cfg) (hs : List Nat) (hlen : hs.l
   obtain ⟨c, hc, e1, e2⟩ := next_prev_cases hs s s1 hcu hmove
   have hget : hs[c]? = some (hs[c]'hc) := List.getElem?_eq_getElem hc
   obtain ⟨s', cs, hd, ch, hm, hi, _, hv⟩ :=
-    ensureScroll_draw_visible cfg hs hlen s c W H (hs[c]'hc) hW hH hH1 ht hp hget (hpos _ (by rw [e2]; exact hget))
+    ensureScroll_draw_visible cfg hs hlen s c W H (hs[c]'hc) hW hH hH1 ht hget (hpos _ (by rw [e2]; exact hget))
   exact ⟨s', cs, by rw [e1]; exact hd, ch, hm, by rw [e2]; exact hi, hv⟩
 
 /-- **NextItem / PrevItem show the selection — all histories, all gaps ≥ 0, items replaced at will.** -/
 theorem dyn_next_prev_visible (cfg : Cfg) (hgap : 0 ≤ cfg.gap) (hs0 : List Nat) (hlen0 : hs0.length < 2 ^ 63)
     (ops : List HOp) (ho : ∀ op ∈ ops, HOpOk op) (hs : List Nat) (s : St)
-    (hrun : runH genFacts cfg hs0 init ops = .ok (hs, s)) (hp : s.pending = 0)
+    (hrun : runH genFacts cfg hs0 init ops = .ok (hs, s))
     (W H : Nat) (hW : W ≠ 65535) (hH : H ≠ 65535) (hH1 : 1 ≤ H)
     (s1 : St) (hmove : (nextItem hs s = (s1, true)) ∨ (prevItem hs s = (s1, true)))
     (hpos : ∀ h ∈ hs, 1 ≤ h) :
@@ -439,11 +443,11 @@ theorem dyn_next_prev_visible (cfg : Cfg) (hgap : 0 ≤ cfg.gap) (hs0 : List Nat
   rw [dyn_repairs_present] at hrun'
   obtain ⟨hs', s0, he, hi, hl⟩ := runH_inv cfg hgap ops hs0 init hlen0 init_inv ho
   rw [hrun'] at he; cases he
-  exact dyn_next_prev_visible_any_state cfg hs hl s W H hW hH hH1 hi.top_ok hi.cur_ok hp s1 hmove
+  exact dyn_next_prev_visible_any_state cfg hs hl s W H hW hH hH1 hi.top_ok hi.cur_ok s1 hmove
     (fun h hh => hpos h (List.mem_of_getElem? hh))
 
 /-- Non-vacuity of the history theorems: a concrete history with gap 1 in which the items are
-    replaced by fewer than the top index, ending with nothing pending. -/
+    replaced by fewer than the top index. -/
 example : (match runH Facts.fixed ⟨1, true⟩ [1, 1, 5, 2] init
       [.op (.setCursor 3), .op (.draw 4 2), .op (.pending (-2)), .items [2], .op (.draw 4 5), .op .wheelDown,
        .op (.draw 4 5), .items [1, 1, 1], .op .next] with
